@@ -581,7 +581,7 @@ def check_lookup_model(ctx):
         res['error'] = str(e)
         return res
     rows_txt = ''
-    per = max(1, (len(qs) + 15) // 16)
+    per = max(1, (len(qs) + 5) // 6) if ctx.quick() else max(1, (len(qs) + 15) // 16)
     bodies, groups = [], []
     for s in range(0, len(qs), per):
         lines = []
@@ -779,9 +779,14 @@ def check_lookup_history(ctx, with_coq=True):
         return res
     # the same calls against the Coq lookup model (no wavelength bounds there)
     lines, meta = [], []
+    done = set()
     for (si, k, q, r) in steps:
         if q['min_wavelength'] or q['max_wavelength']:
             continue
+        sig = (q['name'].lower(), (q['reference'] or '').lower(), q['robust'], r[0], tuple(r[1]) if r[0] == 'ok' else ())
+        if sig in done:
+            continue                      # the model is stateless: identical (query, answer) pairs need one evaluation
+        done.add(sig)
         qq = coq_str(q['name'].lower())
         oref = 'None' if not q['reference'] else f'(Some {coq_str(q["reference"].lower())})'
         if r[0] == 'ok' and r[1]:
@@ -797,7 +802,7 @@ def check_lookup_history(ctx, with_coq=True):
     try:
         low = _lower_rows_txt()
         imp = IMPORTS + '\n' + _rows_vo(low)
-        per = max(1, (len(lines) + 7) // 8)
+        per = max(1, (len(lines) + 3) // 4)
         bodies = ['Eval vm_compute in (report [\n' + ';\n'.join(lines[s:s + per]) + '\n]).\n'
                   for s in range(0, len(lines), per)]
         out = vlib.run_cases('C18hist', imp, bodies)
